@@ -1042,7 +1042,41 @@ def check_cluster_id_fresh(u):
     return obligations, failures, samples
 
 
-CHECKS = {"cluster_id_fresh": check_cluster_id_fresh, "schema_ddl": check_schema_ddl, "schema_atomic": check_schema_atomic, "seq_range_guard": check_seq_range_guard, "exits_covered": check_exits_covered, "sub_lag_stops": check_sub_lag_stops, "single_snapshot": check_single_snapshot, "offer_loops": check_offer_loops, "speedy_prealloc": check_speedy_prealloc, "from_conn": check_from_conn, "sql_actor_scoping": check_sql_actor_scoping, "local_write_sequence": check_local_write_sequence, "insert_local_changes": check_insert_local_changes, "authz_layer": check_authz_layer, "readonly_guard": check_readonly_guard, "read_pool": check_read_pool}
+def check_schema_reload(u):
+    """C15: "after a restart the node works with the same schema it had before".  init_schema rebuilds the schema from the rows of
+    __corro_schema; it collects `(key, sql)` pairs into a HashMap before concatenating the `sql` texts, so a row is lost whenever two rows
+    share the key.  The key must therefore be the object name (`name`: SQLite object names are unique), not the table name (shared by a
+    table's indexes) or the type."""
+    from .lex import iter_string_literals
+    file = u["file"]
+    src, msk, o, c = _fn_body(file, u["fn"])
+    obligations, failures, samples = [], [], []
+    lits = [(a, t) for (a, t) in iter_string_literals(src) if o <= a < c and "__corro_schema" in t]
+    if not lits:
+        raise LostAnchor("init_schema: no query on __corro_schema")
+    for a, t in lits:
+        mm = re.search(r"SELECT\s+(.*?)\s+FROM\s+__corro_schema(.*)", t, re.S | re.I)
+        if not mm:
+            raise Unsupported("init_schema: query shape not recognised: %s" % t[:60])
+        cols = [x.strip() for x in mm.group(1).split(",")]
+        kind = re.search(r'type\s*=\s*"?\'?(\w+)', mm.group(2))
+        name = "reload-of-%s-rows-is-keyed-by-the-unique-object-name" % (kind.group(1) if kind else "schema")
+        obligations.append(name)
+        stmt_end = a
+        while stmt_end < c and msk[stmt_end] != ";":
+            if msk[stmt_end] in "([{":
+                stmt_end = match_delim(msk, stmt_end)
+            stmt_end += 1
+        collected_into_map = re.search(r"\bHashMap\b|\bBTreeMap\b|\bIndexMap\b", src[src.rfind("let", o, a):stmt_end]) is not None
+        if collected_into_map and cols[0] != "name":
+            failures.append((name, _line(src, a), "rows are collected into a map keyed by `%s`, which several rows can share: all but one of them are dropped from the reloaded schema" % cols[0]))
+        if "sql" not in cols:
+            failures.append((name, _line(src, a), "the statement text column `sql` is not selected"))
+        samples.append("%s:%d SELECT %s … keyed by `%s`" % (file, _line(src, a), ", ".join(cols), cols[0]))
+    return obligations, failures, samples
+
+
+CHECKS = {"schema_reload": check_schema_reload, "cluster_id_fresh": check_cluster_id_fresh, "schema_ddl": check_schema_ddl, "schema_atomic": check_schema_atomic, "seq_range_guard": check_seq_range_guard, "exits_covered": check_exits_covered, "sub_lag_stops": check_sub_lag_stops, "single_snapshot": check_single_snapshot, "offer_loops": check_offer_loops, "speedy_prealloc": check_speedy_prealloc, "from_conn": check_from_conn, "sql_actor_scoping": check_sql_actor_scoping, "local_write_sequence": check_local_write_sequence, "insert_local_changes": check_insert_local_changes, "authz_layer": check_authz_layer, "readonly_guard": check_readonly_guard, "read_pool": check_read_pool}
 
 
 def run_unit(prop, u, tier, ctx, here):
